@@ -59,16 +59,17 @@ func (s *Server) DiscoveryRequest(req *pool.Message, address string, receiverFun
 	if err != nil {
 		return fmt.Errorf("cannot marshal req: %w", err)
 	}
-	s.multicastRequests.Store(token.Hash(), req)
-	defer s.multicastRequests.Delete(token.Hash())
 	if _, loaded := s.multicastHandler.LoadOrStore(token.Hash(), func(w *responsewriter.ResponseWriter[*client.Conn], r *pool.Message) {
 		receiverFunc(w.Conn(), r)
 	}); loaded {
+		// the token belongs to a discovery that is still running: leave its entries alone
 		return pkgErrors.ErrKeyAlreadyExists
 	}
 	defer func() {
 		_, _ = s.multicastHandler.LoadAndDelete(token.Hash())
 	}()
+	s.multicastRequests.Store(token.Hash(), req)
+	defer s.multicastRequests.Delete(token.Hash())
 
 	if addr.IP.IsMulticast() {
 		err = c.WriteMulticast(req.Context(), addr, data, opts...)
